@@ -149,6 +149,7 @@ func main() {
 		defer os.RemoveAll(dir)
 	}
 
+	allowBadUTF8 = h.decoderMode() == "lenient"
 	// independent phases (and shards of the big ones) run concurrently, each with its own Lean
 	// driver process; every case derives its RNG from (seed, phase, case), so the split does not
 	// change what is generated
@@ -174,6 +175,15 @@ func main() {
 	}
 	for sh := 0; sh < 4; sh++ {
 		tasks = append(tasks, task{fmt.Sprintf("produce/%d", sh), func(h *H) { h.phaseProduce(sh, 4) }})
+	}
+	for sh := 0; sh < 2; sh++ {
+		tasks = append(tasks, task{fmt.Sprintf("store/%d", sh), func(h *H) { h.phaseStore(sh, 2) }})
+	}
+	for sh := 0; sh < 2; sh++ {
+		tasks = append(tasks, task{fmt.Sprintf("storerec/%d", sh), func(h *H) { h.phaseStoreRec(sh, 2) }})
+	}
+	for sh := 0; sh < 2; sh++ {
+		tasks = append(tasks, task{fmt.Sprintf("rewriters/%d", sh), func(h *H) { h.phaseRewriters(sh, 2) }})
 	}
 	tasks = append(tasks,
 		task{"utf8", func(h *H) { h.phaseUTF8() }}, task{"limits/0", func(h *H) { h.phaseLimits(0, 14) }})
@@ -233,6 +243,7 @@ func main() {
 				res.Fatalf("tie lost: %q was hit %d times, expected at least %d", k, res.Distribution[k], n)
 			}
 		}
+		h.accessorCensus()
 		if len(golden) != 12 {
 			res.Fatalf("golden corpus has %d records, expected 12", len(golden))
 		}
@@ -563,6 +574,7 @@ func (h *H) phaseBlob(shard, shards int) {
 		if out = h.ask("allrc " + hx(stored)); out != wantAll(itemBytes[len(txs):]) {
 			res.Mismatch(lib.Mismatch{Sig: "blob-allrc", Input: map[string]any{"txs": len(txs), "rcs": len(rcs)}, Model: clip(out), Impl: clip(wantAll(itemBytes[len(txs):]))})
 		}
+		h.blobExtractors(i, g, stored, txs, rcs, itemBytes)
 	}
 }
 
